@@ -83,8 +83,8 @@ impl Prop for PPipe {
     }
 
     fn gen(&mut self, rng: &mut Rng, _idx: usize, tier: &str) -> Value {
-        let pool: [&str; 34] = ["a", " ", "  ", "\n", "\t", "'", "\"", "\\", "*", "?", "[", "-", "-n", "--", "{}", "$(id)", "é", "日本", "😀", "a b", "x\ny", "'q'", "\"q\"", "a\\b",
-                                "-print0", "é ", " é", "$HOME", ";", "|", "\r", "a\r", "\r\n", "x\u{b}"];
+        let pool: [&str; 38] = ["a", " ", "  ", "\n", "\t", "'", "\"", "\\", "*", "?", "[", "-", "-n", "--", "{}", "$(id)", "é", "日本", "😀", "a b", "x\ny", "'q'", "\"q\"", "a\\b",
+                                "-print0", "é ", " é", "$HOME", ";", "|", "\r", "a\r", "\r\n", "x\u{b}", "(old)", "!x", ",v", ")z"];
         if _idx % 10 == 3 {
             // a stream longer than one read buffer, made of multi-byte characters: record boundaries and character
             // boundaries fall anywhere relative to the 4 KiB / 8 KiB read sizes
